@@ -80,10 +80,23 @@ def run(rep, tier):
             v = fmm.devec(fmm.vecsym(v) if hasattr(v, "e") else v)
             got = str(v)
             ncs = [a_ for a_ in sp.preorder_traversal(v) if str(getattr(a_, "func", "")) == "y" and getattr(a_, "is_commutative", True) is False]
-            avg = [a_ for a_ in ncs if re.search(r"->%s\)\)$" % fld, str(a_))]
+            def owner(txt, member):
+                m1 = re.search(r"\.%s\((.*?)\)\)" % member, txt) if ".%s(" % member in txt else None
+                if m1:
+                    # balanced extraction of the argument of .member( ... )
+                    i0 = txt.index(".%s(" % member) + len(member) + 2
+                    d_, j0 = 1, i0
+                    while j0 < len(txt) and d_ > 0:
+                        d_ += {"(": 1, ")": -1}.get(txt[j0], 0)
+                        j0 += 1
+                    return re.sub(r"\s", "", txt[i0:j0 - 1])
+                m2 = re.search(r"([\w@#\.>\-]+)->%s\b" % member, txt)
+                return m2.group(1) if m2 else None
+            avg = [a_ for a_ in ncs if re.search(r"(^|[^\w])%s($|[^\w])" % fld, str(a_)) and "current_hists" not in str(a_)]
             curv = [a_ for a_ in ncs if "worker->%s" % cur in str(a_) and "index_" in str(a_)]
             if len(set(avg)) == 1 and len(set(curv)) == 1:
-                ok = nc_is_zero(v - ((nn - 1) * avg[0] + curv[0]) / nn) and str(avg[0]).replace("y(data(", "").replace("->%s))" % fld, "") in st[0]["target"]
+                oa, oc = owner(str(avg[0]), fld), owner(str(curv[0]), "index_")
+                ok = nc_is_zero(v - ((nn - 1) * avg[0] + curv[0]) / nn) and oa is not None and oa == oc
         rep.check(ok, "R4.1", "mean|" + fld, "avg' = ((n-1) avg + cur)/n, n = frames merged so far (after ++)",
                   "MergeWorker updates %s as %s; the frame average requires ((n-1)*avg + current)/n with n the incremented frame count" % (fld, got[:300]),
                   fm.loc(st[0]["node"] if st else None), sample=True)
